@@ -35,6 +35,7 @@ def mc_ops():
         {"e": "Reset"},
         {"e": "OpenBank", "b": 1, "bad": 0}, {"e": "OpenBank", "b": 2, "bad": 0}, {"e": "OpenBank", "b": 1, "bad": 1},
         {"e": "OpenMidi", "s": 1, "bad": 0}, {"e": "OpenMidi", "s": 2, "bad": 0}, {"e": "OpenMidi", "s": 1, "bad": 1},
+        {"e": "OpenMidi", "s": 3, "bad": 0},
         V("SwitchEmulator", 7),
     ]
 
@@ -86,6 +87,7 @@ def all_single_calls(dumper=True):
     out.append({"e": "Reset"})
     out += [{"e": "OpenBank", "b": b, "bad": bad} for b in (1, 2, 3) for bad in (0, 1, 2, 3) if b == 1 or bad == 0]
     out += [{"e": "OpenMidi", "s": s, "bad": bad} for s in (1, 2) for bad in (0, 1, 2, 3, 4) if s == 1 or bad == 0]
+    out += [{"e": "OpenMidi", "s": 3, "bad": bad} for bad in (0, 4)]      # the EA-MUS song (locks the set-up) / its signature broken
     return out
 
 
@@ -113,7 +115,19 @@ PRELUDES = {
               {"e": "OpenMidi", "s": 1, "bad": 0}, V("SetLoop", 1), V("SetLoopCount", 2), {"e": "SetTempo", "num": 2, "den": 1},
               {"e": "SetHook", "h": "raw", "on": 1}, {"e": "SetHook", "h": "ls", "on": 1}, {"e": "SetHook", "h": "le", "on": 1},
               {"e": "SetHook", "h": "note", "on": 1}, {"e": "SetHook", "h": "dbg", "on": 1}, {"e": "TrackOpt", "t": 1, "o": 2}],
+    # set-up locked by the EA-MUS song (song 3) with requests that differ from what the format imposes (2 chips, Generic)
+    "locked": [{"e": "OpenBank", "b": 3, "bad": 0}, V("SetNumChips", 3), V("SetVolModel", 3), V("SetLoop", 1), V("SetLoopCount", 2),
+               {"e": "SetHook", "h": "raw", "on": 1}, {"e": "SetHook", "h": "note", "on": 1}, {"e": "SetHook", "h": "le", "on": 1},
+               {"e": "OpenMidi", "s": 3, "bad": 0}],
+    "lockedplain": [{"e": "OpenBank", "b": 1, "bad": 0}, {"e": "OpenMidi", "s": 3, "bad": 0}],
 }
+RSXX = {"e": "OpenMidi", "s": 3, "bad": 0}
+# calls that end the lock (applySetup) / keep it (partialReset only)
+UNLOCK = [{"e": "OpenMidi", "s": 1, "bad": 0}, {"e": "OpenMidi", "s": 2, "bad": 0}, {"e": "OpenBank", "b": 2, "bad": 0}, V("SetChipType", 1)]
+KEEP = [{"e": "Reset"}, V("SwitchEmulator", 1), V("SwitchEmulator", 7), RSXX]
+LOCKED_SETTERS = ([V("SetNumChips", v) for v in (1, 2, 3, 4, 100, 0, 101, -1, INT_MIN, INT_MAX)] +
+                  [V("SetVolModel", v) for v in (0, 1, 2, 3, 4, 5, 6, -1, INT_MAX)] +
+                  [V("SetRunAtPcm", v) for v in (0, 1, 100, -1)])
 
 
 def tail(song=True):
@@ -138,8 +152,41 @@ def exhaustive_singles(preludes=("bare", "song", "tuned"), dumper=True):
     return hs
 
 
+def locked_histories(rng=None, n=None):
+    """Every deferred setter (chip count, volume model, PCM-rate mode; in-range, boundary, invalid) issued while the EA-MUS
+    song locks the set-up: setter, getters, probe, optionally a call that keeps the lock, then a call that ends it
+    (ordinary song, bank, chip type), getters, probes.  Also: two setters while locked, the lock entered twice, and a
+    rejected file while locked followed by a valid one.  n: a sample of that size (quick tier)."""
+    hs = []
+    k = 0
+    for pname in ("locked", "lockedplain"):
+        for c in LOCKED_SETTERS:
+            for u in UNLOCK:
+                k += 1
+                mid = [KEEP[k % len(KEEP)]] if k % 3 == 0 else []
+                h = [INIT] + PRELUDES[pname] + [PROBE, c, PROBE] + mid + [u]
+                if u["e"] != "OpenMidi":
+                    h += [PLAY, {"e": "OpenMidi", "s": 1 + k % 2, "bad": 0}]
+                hs.append(h + [PROBE, PLAY])
+    for (a, b) in itertools.product(LOCKED_SETTERS[:5] + LOCKED_SETTERS[10:16] + LOCKED_SETTERS[19:21], repeat=2):
+        if a["e"] != b["e"]:
+            k += 1
+            hs.append([INIT] + PRELUDES["lockedplain"] + [a, b, PLAY, UNLOCK[k % len(UNLOCK)], PROBE, {"e": "OpenMidi", "s": 1, "bad": 0}, PLAY])
+    for c in LOCKED_SETTERS:
+        for bad in (1, 2, 3, 4):
+            k += 1
+            if k % 4 == bad - 1:
+                hs.append([INIT] + PRELUDES["lockedplain" if k % 8 < 4 else "locked"] +
+                          [c, PROBE, {"e": "OpenMidi", "s": 1, "bad": bad}, PROBE, PLAY, {"e": "OpenMidi", "s": 2, "bad": 0}, PROBE, PLAY])
+    if n is not None and len(hs) > n:
+        rng.shuffle(hs)
+        hs = hs[:n]
+    return hs
+
+
 def exhaustive_pairs(rng, n):
-    """Pairs (invalid call, second call) after the 'song' prelude: sampled without replacement from the full product."""
+    """Pairs (invalid call, second call) after the 'song' prelude (one in five: with the set-up locked by the EA-MUS song):
+    sampled without replacement from the full product."""
     calls = all_single_calls(True)
     bad = [c for c in calls if is_invalid(c)]
     prod = [(a, b) for a in bad for b in calls]
@@ -147,7 +194,7 @@ def exhaustive_pairs(rng, n):
     hs = []
     for (a, b) in prod[:n]:
         first, second = (a, b) if rng.random() < 0.5 else (b, a)
-        hs.append([INIT] + PRELUDES["song"] + [first, second, PROBE, {"e": "OpenMidi", "s": 1, "bad": 0}, PLAY])
+        hs.append([INIT] + PRELUDES["locked" if len(hs) % 5 == 4 else "song"] + [first, second, PROBE, {"e": "OpenMidi", "s": 1, "bad": 0}, PLAY])
     return hs
 
 
@@ -175,12 +222,12 @@ def random_call(rng, p_invalid=0.35):
         return {"e": "Reset"}
     if r < 0.94:
         return {"e": "OpenBank", "b": rng.choice([1, 2, 3]), "bad": rng.choice([1, 2, 3]) if rng.random() < p_invalid else 0}
-    return {"e": "OpenMidi", "s": rng.choice([1, 2]), "bad": rng.choice([1, 2, 3, 4]) if rng.random() < p_invalid else 0}
+    return {"e": "OpenMidi", "s": rng.choice([1, 2, 3, 3]), "bad": rng.choice([1, 2, 3, 4]) if rng.random() < p_invalid else 0}
 
 
 def random_history(rng, length=14):
     h = [INIT]
-    pre = rng.choice(["bare", "bank", "song", "song", "tuned"])
+    pre = rng.choice(["bare", "bank", "song", "song", "tuned", "locked", "lockedplain"])
     h += PRELUDES[pre]
     have_bank = pre != "bare"
     pending_reload = False
